@@ -339,10 +339,14 @@ def sec_ast(rep):
     rep.add(ob_eval("C18/njit-functions-found", len(fns) >= 100, detail=f"{len(fns)} njit functions"))
     rep.extra["njit_functions"] = len(fns)
     module_writes = {}
+    import hashlib
+
     for name, node, tree, deco in fns:
         rep.cases += 1
         bad = []
         ints = int_typed_names(node, deco)
+        mod, _, fn = name.rpartition(".")
+        rep.functions[f"{mod}:{fn}"] = hashlib.sha256(ast.unparse(node).encode()).hexdigest()[:16]
         for n in ast.walk(node):
             if isinstance(n, ast.BinOp) and isinstance(n.op, ast.Pow) and is_int_expr(n.left, ints) and not nonneg_exponent(n.right):
                 bad.append(f"line {n.lineno}: integer-typed base ** negated exponent ({ast.unparse(n)[:60]}): a float in CPython, an integer power (0 for |base|>1) in numba")
